@@ -56,7 +56,7 @@ def gen(rng):
         ok = ok and exact_double(scale) and exact_double(bias)
         if not ok: continue
         return {'s': s_, 'nw': nw, 'nf': nf, 'r': rng.choice(RMODES), 'o': rng.choice(OMODES), 'scale': scale, 'bias': bias, 'vs': vs, 'ts': ts,
-                'route': rng.choice(['ctor', 'call', 'set_val', 'ctor_like']), 'carrier': rng.choice(['float', 'int', 'int', 'npint', 'listint', 'np:uint8', 'np:int8', 'np:int16', 'np:uint16', 'np:uint32', 'np:uint64', 'np:float32', 'fxp', 'fxp']),
+                'route': rng.choice(['ctor', 'call', 'set_val', 'ctor_like', 'equal', 'like_method']), 'carrier': rng.choice(['float', 'int', 'int', 'npint', 'listint', 'np:uint8', 'np:int8', 'np:int16', 'np:uint16', 'np:uint32', 'np:uint64', 'np:float32', 'fxp', 'fxp', 'listnp:uint64', 'listnp:uint64']),
                 'pyint_params': rng.random() < 0.5,      # integral scale / bias passed as Python ints (not floats)
                 'np_params': rng.choice([None, None, None, 'float32', 'float16', 'float64'])}
 
@@ -92,6 +92,8 @@ def run_cases(cases, res):
                 ok = all(Fraction(float(dt.type(int(v) if dt.kind in 'iu' else v))) == Fraction(v) for v in fl) and (dt.kind == 'f' or all(v.denominator == 1 for v in c['vs']))
             except (OverflowError, ValueError): ok = False
             if ok: val = np.array([int(v) for v in fl] if dt.kind in 'iu' else fl, dtype=dt) if len(fl) > 1 else dt.type(int(fl[0]) if dt.kind in 'iu' else fl[0])
+        if c.get('carrier') == 'listnp:uint64' and all(v.denominator == 1 and 0 <= v < 2**64 for v in c['vs']):
+            val = [np.uint64(int(v)) for v in c['vs']]          # a list of NumPy uint64 scalars
         if c.get('carrier') == 'fxp':        # the value supplied as an (unscaled) fixed-point object that holds it exactly
             fl = [float(v) for v in c['vs']]
             val = fx.Fxp(np.array(fl) if len(fl) > 1 else fl[0])
@@ -107,6 +109,8 @@ def run_cases(cases, res):
                 x = fx.Fxp(None, c['s'], c['nw'], c['nf'], **kw)
                 x.reset()        # the initial value 0 is itself transformed and may raise flags at construction
                 if c['route'] == 'call': x(val)
+                elif c['route'] == 'equal': x.equal(val)
+                elif c['route'] == 'like_method' and isinstance(val, fx.Fxp): x = val.like(x)       # the (unscaled) source converted into an object like the scaled one
                 else: x.set_val(val)
             obs = {'codes': lib.codes_of(x), 'get': lib.vals_of(x.get_val()), 'upper': Fraction(float(x.upper)), 'lower': Fraction(float(x.lower)), 'prec': Fraction(float(x.precision)),
                    'status': lib.status3(x)}
@@ -231,11 +235,46 @@ def run_operand(cases, res):
         if got[2] != zs * Fraction(want) / Fraction(2) ** zf[2] + zb:
             res.fail(c, 'C17: the result of arithmetic with a scaled operand does not read back scale*code*2^-n_frac + bias', expected=str(zs * Fraction(want) / Fraction(2) ** zf[2] + zb), got=str(got[2]))
 
+def run_complex_scaled(cases, res):
+    """a complex value into a scaled object: each component is (component - bias) / scale (the bias is real) quantized like a real value.
+    Cases are the real cases with the value handed over as v + w*scale*j (complex128 or complex64): the real code is the one of the real
+    case, the imaginary code is the quantization of w"""
+    fx = lib.impl(); import numpy as np
+    pend = []; reqs = []
+    for c in cases:
+        kw = dict(rounding=c['r'], overflow=c['o'], scale=float(c['scale']), bias=float(c['bias']))
+        v, t = c['vs'][0], c['ts'][0]; w = Fraction(c['w']); vi = w * c['scale']
+        if not (exact_double(vi) and exact_double(w) and S.in_core(c['nf'], w)): continue
+        z = complex(float(v), float(vi))
+        if c['ctype'] == 'complex64':
+            z = np.complex64(z)
+            if Fraction(float(z.real)) != v or Fraction(float(z.imag)) != vi: continue
+        try:
+            x = fx.Fxp(z, c['s'], c['nw'], c['nf'], **kw)
+            got = (int(np.real(x.val)), int(np.imag(x.val)))
+        except Exception as e:
+            res.fail(jcase(c), 'C17: storing a complex value into a scaled object raised %s' % lib.exc_name(e), got=str(e)[:200]); continue
+        pend.append((c, got)); reqs.append([4] + e_fmt(c['s'], c['nw'], c['nf']) + [RMODES.index(c['r']), OMODES.index(c['o'])] + e_list([t, w], e_dy))
+    for (c, got), o in zip(pend, model_call(reqs)):
+        rd = Reader(o); want = tuple(rd.lst(rd.z))
+        res.count('X:complex-into-scaled', key=repr(jcase(c)), nontrivial=True)
+        if got != want:
+            res.fail(jcase(c), 'C17: a complex value stored into a scaled object is not, component by component, the quantization of (component - bias) / scale', expected=want, got=got)
+
 def shard(shard, nshards, rng, tier, extra):
     res = Result()
     run_cases([gen(rng) for _ in range((4000 if tier == 'quick' else 100000) // nshards)], res)
     best_sizes(rng, (600 if tier == 'quick' else 15000) // nshards, res)
     run_operand(operand_cases(rng, (1200 if tier == 'quick' else 30000) // nshards), res)
+    cx = []
+    while len(cx) < (500 if tier == 'quick' else 12000) // nshards:
+        c = gen(rng)
+        if len(c['vs']) != 1: continue
+        c['scale'] = Fraction(rng.choice([49, 3, 7, 75, 1, 2, -3, 5]), 2 ** rng.randint(0, 3)); c['vs'] = [c['scale'] * c['ts'][0] + c['bias']]
+        if not all(exact_double(q) for q in (c['vs'][0], c['vs'][0] - c['bias'], c['scale'])): continue
+        c['w'] = str(Fraction(rng.randint(-40, 40), 2 ** rng.randint(0, max(c['nf'], 0) + 2))); c['ctype'] = rng.choice(['complex128', 'complex128', 'complex64'])
+        cx.append(c)
+    run_complex_scaled(cx, res)
     return res
 
 def run(seed, tier):
@@ -243,7 +282,8 @@ def run(seed, tier):
 def classify(fl): return None
 def replay(payload):
     c = payload['case']; res = Result()
-    if 'vs' in c: run_cases([unj(c)], res)
+    if 'ctype' in c: run_complex_scaled([unj(c)], res)
+    elif 'vs' in c: run_cases([unj(c)], res)
     elif 'which' in c: run_operand([c], res)
     elif 't' in c: best_sizes_cases([c], res)
     return {'holds': not res.failures, 'failures': res.failures}
